@@ -42,9 +42,21 @@ def profiles(thorough, sd):
                 ("deep5", dict(deep, MaxNodes=5, Mod=1, Sel=0, Always=0, **full), 8),
                 ("deep6", dict(deep6, MaxNodes=6, Mod=8, Sel=sd % 8, Always=0, **full), 8)]
     # quick: the search itself is sampled (sub-trees of a seeded slice of the 2-/3-node trees), small trees are all kept
-    return [("wide4", dict(wide, MaxNodes=4, Mod=1, Sel=sd, Always=2, PruneFrom=2, PruneMod=9), 5),
-            ("deep5", dict(deep, MaxNodes=5, Mod=1, Sel=sd, Always=0, PruneFrom=3, PruneMod=12), 4),
-            ("deep6", dict(deep6, MaxNodes=6, Mod=1, Sel=sd, Always=0, PruneFrom=3, PruneMod=12), 4)]
+    return [("wide4", dict(wide, MaxNodes=4, Mod=1, Sel=sd, Always=2, PruneFrom=2, PruneMod=12), 5),
+            ("deep5", dict(deep, MaxNodes=5, Mod=1, Sel=sd, Always=0, PruneFrom=3, PruneMod=16), 4),
+            ("deep6", dict(deep6, MaxNodes=6, Mod=1, Sel=sd, Always=0, PruneFrom=3, PruneMod=16), 4)]
+
+
+def tlc_retry(*a, **kw):
+    """another check's timeout handler may kill every TLC on the machine (pkill): retry when TLC was terminated from outside"""
+    for attempt in range(3):
+        try:
+            return C.tlc(*a, **kw)
+        except C.Undecided as e:
+            if attempt == 2 or not any(x in str(e) for x in ("rc=143", "rc=-15", "rc=137", "rc=-9")):
+                raise
+            C.log("TLC was killed from outside; retrying")
+            time.sleep(2)
 
 
 def run_tlc_cases(chk, label, consts, workers, timeout):
@@ -52,7 +64,7 @@ def run_tlc_cases(chk, label, consts, workers, timeout):
     cfg = os.path.join(rd, "cases_%s.cfg" % label)
     C.write_cfg(cfg, constants=consts, invariants=["Header", "Judge"],
                 extra="CONSTANTS\n  NameUniverse <- AllNames\n  PatUniverse <- AllPats\n")
-    res = C.tlc(SPEC, "EmbedCases", cfg, rd, workers=workers, timeout=timeout, parse_json=False, java_opts=JAVA)
+    res = tlc_retry(SPEC, "EmbedCases", cfg, rd, workers=workers, timeout=timeout, parse_json=False, java_opts=JAVA)
     if not res.ok:
         raise C.Undecided("EmbedCases/%s: the law's own sanity conditions failed in TLC (spec defect): %s\n%s"
                           % (label, res.violation, res.out[-1500:]))
@@ -190,11 +202,14 @@ def replay_trees(chk, testbin, cases_path, hdr, ntrees, negwant, tmpd):
     origbad = set()
     groups = {}
     singles = set()
+    plain = set()
     with open(out) as f:
         for line in f:
             m = json.loads(line)
             if m["line"] != 1 and m["which"] == "one":
                 singles.add((m["kind"], m["pats"][0]))
+            if m["line"] != 1 and m.get("home") != "meta":
+                plain.add((m["kind"], tuple(m["pats"])))
     with open(out) as f:
         for line in f:
             m = json.loads(line)
@@ -204,6 +219,9 @@ def replay_trees(chk, testbin, cases_path, hdr, ntrees, negwant, tmpd):
             if m["line"] == negwant["orig_line"]:
                 origbad.add((m["idx"], m["which"]))
             k = tree_key(m, singles)
+            if m.get("home") == "meta" and (m["kind"], tuple(m["pats"])) not in plain:
+                # only seen where the package directory's own name contains glob metacharacters
+                k = "tree:%s:package-directory-named-with-glob-metacharacters" % m["kind"]
             g = groups.setdefault(k, {"n": 0, "first": m})
             g["n"] += 1
             if len(m["tree"]) < len(g["first"]["tree"]):
@@ -245,8 +263,8 @@ def golist_trees(chk, testbin, cases_path, tmpd, thorough, sd):
     env = C.base_env({"VERIF_CASES": cases_path, "VERIF_OUT": out, "VERIF_TMP": tmpd, "VERIF_GO": C.GO124,
                       "VERIF_SEED": str(sd), "VERIF_GL_ALWAYS_LINE": "1", "TMPDIR": chk.rd.sub("tmp"),
                       "VERIF_GL_ALLUPTO": "1" if thorough else "0",
-                      "VERIF_GL_PER_MILLE": "40" if thorough else "16",
-                      "VERIF_GL_PER_MILLE_TRIVIAL": "4" if thorough else "2"})
+                      "VERIF_GL_PER_MILLE": "25" if thorough else "14",
+                      "VERIF_GL_PER_MILLE_TRIVIAL": "3" if thorough else "2"})
     env.pop("GOROOT", None)
     so = run_test(testbin, "TestVerifGoListTrees", env, 3000)
     checked = int(so.split("checked=")[1].split()[0])
@@ -280,7 +298,7 @@ def tlc_lines(chk, thorough):
     cfg = os.path.join(rd, "line.cfg")
     consts = {"MaxLen": 7, "Mod": 1, "Sel": 0} if thorough else {"MaxLen": 6, "Mod": 1, "Sel": 0}
     C.write_cfg(cfg, constants=consts, invariants=["LawNoInvention", "LawPlainSplit", "Emit"])
-    res = C.tlc(SPEC, "EmbedLine", cfg, rd, workers=8 if thorough else 3, timeout=1200, parse_json=False, java_opts=JAVA)
+    res = tlc_retry(SPEC, "EmbedLine", cfg, rd, workers=8 if thorough else 3, timeout=1200, parse_json=False, java_opts=JAVA)
     if not res.ok:
         raise C.Undecided("EmbedLine: the law's own sanity conditions failed: %s" % res.violation)
     res.label = "EmbedLine/len%d" % consts["MaxLen"]
@@ -331,7 +349,7 @@ def run_lines(chk, testbin, tmpd, thorough, sd, res):
                    dict(m, instances_in_run=g["n"]))
     # reference: go/build's reading of the same lines
     out2 = os.path.join(rd, "golist_line_mismatches.ndjson")
-    step = 1 if thorough else 5
+    step = 1 if thorough else 6
     env = C.base_env({"VERIF_LINES": lines_path, "VERIF_OUT": out2, "VERIF_TMP": tmpd, "VERIF_GO": C.GO124,
                       "VERIF_FROM": str(0), "VERIF_STEP": str(step), "TMPDIR": chk.rd.sub("tmp")})
     so = run_test(testbin, "TestVerifGoListLines", env, 3000)
